@@ -105,6 +105,31 @@ def metamorphic(ctx, rnd, tag, cfg, p4, cases, parity_ok=True, swap=None, nmass=
     return pars
 
 
+def permutation_cases(ctx, rnd, tag, cfg, p4, cases):
+    """density under every permutation of the momenta of the declared identical particles"""
+    import itertools
+    from tf_pwa.config_loader import ConfigLoader
+    config = ConfigLoader(cfg); amp = config.get_amplitude(); pars = ampkit.random_params(amp, rnd)
+    names = cfg["data"]["identical_particles"][0]
+    rho = np.array(amp(config.data.cal_angle(p4)))
+    meta0 = {"config": cfg, "params": {k: float(v) for k, v in pars.items()}, "events": {k: v.tolist() for k, v in p4.items()}}
+    for perm in itertools.permutations(names):
+        if list(perm) == list(names):
+            continue
+        q4 = dict(p4)
+        for a, b in zip(names, perm):
+            q4[a] = p4[b]
+        rho2 = np.array(amp(config.data.cal_angle(q4)))
+        ctx.count("transform:permutation")
+        ctx.evaluations += len(rho)
+        for e in range(len(rho)):
+            tol = 1e-8 * abs(float(rho[e]))
+            cases.append(("X_%s_%s_e%d" % (tag, "".join(perm), e), "(Rabs (%s - %s) <= %s)%%R" % (Rq(float(rho2[e])), Rq(float(rho[e])), Rq(tol)), "interval with (i_prec 90)",
+                          dict(meta0, layer="frame_invariance", transform="exchange %s->%s" % ("".join(names), "".join(perm)), event=e,
+                               density_p=float(rho[e]), density_Lp=float(rho2[e]))))
+            ctx.distinct.add((tag, perm, e))
+
+
 def psum(p4, names, e):
     s = c04.P4q(p4[names[0]][e])
     for n in names[1:]:
@@ -169,6 +194,12 @@ def run(ctx):
     cfg = ampkit.three_body_config(M0, mf, res, data_opts={"identical_particles": [["C", "D"]]})
     p4 = ampkit.gen_events(M0, mf, nev, rnd.randrange(10 ** 6))
     metamorphic(ctx, rnd, "identical", cfg, p4, cases, swap=("C", "D"))
+    # three identical SPIN-1 particles: the exchanged amplitudes come with helicity-axis transpositions (3-cycles included)
+    mf = {"B": 0.3, "C": 0.3, "D": 0.3}; M0 = 2.0
+    res = {"R_BC": {"pair": "R_BC", "J": 2, "P": 1, "mass": 1.1, "width": 0.2}}
+    cfg = ampkit.three_body_config(M0, mf, res, top=(1, -1), fin={k: (1, -1) for k in "BCD"}, data_opts={"identical_particles": [["B", "C", "D"]]})
+    p4 = ampkit.gen_events(M0, mf, nev, rnd.randrange(10 ** 6))
+    permutation_cases(ctx, rnd, "identical3", cfg, p4, cases)
     for c in cases[:: max(1, len(cases) // 4)]:
         ctx.sample({"case": c[0], "goal": c[1][:300], "layer": c[3].get("layer")}, cap=12)
     res_ = common.coq_cases(ctx, "c01", HEADER, [c[:3] for c in cases], per_file=8, case_timeout=60)
